@@ -7,25 +7,27 @@ use crate::gen;
 use crate::prng::{hash_str, mix, Rng};
 use crate::report::{catch, nthreads, par_run, Meta, Stats};
 use crate::tree::{dump_html, dump_xml};
-use crate::xdrive::{run_xml_parse, XmlOpts};
+use crate::xdrive::{run_xml_parse_scripted, XmlOpts};
 use crate::Args;
 use serde_json::{json, Value};
 
-fn check_html(input: &str, cuts: &[usize], opts: &HtmlOpts, st: &mut Stats) {
-    // reference: the same schedule without collection (so that only the effect of collecting is observed)
+fn check_html(input: &str, cuts: &[usize], opts: &HtmlOpts, script: Option<u64>, st: &mut Stats) {
+    // reference: the same schedule (and the same script actions) without collection, so that only
+    // the effect of collecting is observed
     let chunks = split_at_chars(input, cuts);
-    let reference = match catch(|| run_html_parse(&chunks, opts, Gc::Off, false, &mut no_script)) {
+    let reference = match catch(|| run_html_parse_scripted(&chunks, opts, Gc::Off, false, &mut no_script, script)) {
         Ok(r) => dump_html(&r.sink.document_tree()),
         Err(_) => {
             st.count("reference_panicked");
             return;
         },
     };
-    let rep = || json!({"kind": "html", "input": input, "cuts": cuts, "opts": super::c03::html_opts_json(opts)});
-    match catch(|| run_html_parse(&chunks, opts, Gc::EverySuspension, false, &mut no_script)) {
+    let rep = || json!({"kind": "html", "input": input, "cuts": cuts, "opts": super::c03::html_opts_json(opts), "script_seed": script.map(|s| s.to_string())});
+    match catch(|| run_html_parse_scripted(&chunks, opts, Gc::EverySuspension, false, &mut no_script, script)) {
         Err(m) => {
+            // the same schedule without collection completed: collecting changed the parse
             st.count("gc_run_panicked");
-            let _ = m;
+            st.violation(&format!("html:panic-under-gc:{}", crate::report::panic_signature(&m)), &format!("input={} {}: the run with collection panicked, the run without did not: {m}", show(input), opts.describe()), rep());
         },
         Ok(r) => {
             let (colls, pois, uses) = {
@@ -35,6 +37,7 @@ fn check_html(input: &str, cuts: &[usize], opts: &HtmlOpts, st: &mut Stats) {
             st.add("collections", colls);
             st.add("nodes_collected", pois);
             st.add("handle_uses_checked_after_collections", uses);
+            st.add("script_dom_mutations", r.script_actions as u64);
             st.case(if pois > 0 { Some(hash_str(&format!("{input}{cuts:?}{}", opts.describe()))) } else { None });
             if pois > 0 {
                 st.count("runs_that_collected_something");
@@ -43,7 +46,7 @@ fn check_html(input: &str, cuts: &[usize], opts: &HtmlOpts, st: &mut Stats) {
             if let Some((_, d)) = viol.first() {
                 // signature: which kind of node was lost (tag name), keeps different omissions apart
                 let what = d.split(':').nth(1).unwrap_or("").trim().split('#').next().unwrap_or("").to_string();
-                st.violation(&format!("html:use-after-collect:{what}"), &format!("input={} cuts={:?} {}: {d}", show(input), &cuts[..cuts.len().min(6)], opts.describe()), rep());
+                st.violation(&format!("html:use-after-collect{}:{what}", if script.is_some() { ":scripted" } else { "" }), &format!("input={} cuts={:?} {}: {d}", show(input), &cuts[..cuts.len().min(6)], opts.describe()), rep());
                 return;
             }
             let d = dump_html(&r.sink.document_tree());
@@ -57,14 +60,14 @@ fn check_html(input: &str, cuts: &[usize], opts: &HtmlOpts, st: &mut Stats) {
     }
 }
 
-fn check_xml(input: &str, cuts: &[usize], st: &mut Stats) {
+fn check_xml(input: &str, cuts: &[usize], script: Option<u64>, st: &mut Stats) {
     let o = XmlOpts::default();
     let chunks = split_at_chars(input, cuts);
-    let reference = match catch(|| run_xml_parse(&chunks, &o, false, false)) {
+    let reference = match catch(|| run_xml_parse_scripted(&chunks, &o, false, false, script)) {
         Ok(r) => dump_xml(&r.sink.document_tree()),
         Err(_) => return,
     };
-    if let Ok(r) = catch(|| run_xml_parse(&chunks, &o, true, false)) {
+    if let Ok(r) = catch(|| run_xml_parse_scripted(&chunks, &o, true, false, script)) {
         let (colls, pois) = {
             let i = r.sink.inner.borrow();
             (i.collections, i.poisoned_total)
@@ -73,10 +76,10 @@ fn check_xml(input: &str, cuts: &[usize], st: &mut Stats) {
         st.add("nodes_collected", pois);
         st.count("xml_runs");
         st.case(if pois > 0 { Some(hash_str(&format!("x{input}{cuts:?}"))) } else { None });
-        let rep = json!({"kind": "xml", "input": input, "cuts": cuts});
+        let rep = json!({"kind": "xml", "input": input, "cuts": cuts, "script_seed": script.map(|s| s.to_string())});
         let viol: Vec<_> = r.sink.inner.borrow().violations.iter().filter(|v| v.0 == "use-after-collect").cloned().collect();
         if let Some((_, d)) = viol.first() {
-            st.violation("xml:use-after-collect", &format!("xml input={}: {d}", show(input)), rep);
+            st.violation(if script.is_some() { "xml:use-after-collect:scripted" } else { "xml:use-after-collect" }, &format!("xml input={} script={script:?}: {d}", show(input)), rep);
             return;
         }
         let d = dump_xml(&r.sink.document_tree());
@@ -91,10 +94,11 @@ pub fn run(args: &Args) -> (Meta, Stats) {
         let mut st = Stats::new();
         let v: Value = serde_json::from_str(&std::fs::read_to_string(p).unwrap_or_default()).unwrap_or(Value::Null);
         let cuts: Vec<usize> = v["cuts"].as_array().map(|a| a.iter().filter_map(|x| x.as_u64()).map(|x| x as usize).collect()).unwrap_or_default();
+        let script = v["script_seed"].as_str().and_then(|s| s.parse().ok());
         if v["kind"] == "xml" {
-            check_xml(v["input"].as_str().unwrap_or(""), &cuts, &mut st);
+            check_xml(v["input"].as_str().unwrap_or(""), &cuts, script, &mut st);
         } else {
-            check_html(v["input"].as_str().unwrap_or(""), &cuts, &super::c03::opts_from_json(&v["opts"]), &mut st);
+            check_html(v["input"].as_str().unwrap_or(""), &cuts, &super::c03::opts_from_json(&v["opts"]), script, &mut st);
         }
         return (super::meta(args, "replay of one recorded case", &[]), st);
     }
@@ -107,9 +111,15 @@ pub fn run(args: &Args) -> (Meta, Stats) {
         while !expired(deadline) {
             k += 1;
             if k % 6 == 0 {
-                let input = gen::xml_doc(&mut rng, 14);
+                let input = if rng.chance(1, 2) { gen::xml_ns_doc(&mut rng) } else { gen::xml_doc(&mut rng, 14) };
                 let n = input.chars().count();
-                check_xml(&input, &gen::one_char_cuts(n), st);
+                check_xml(&input, &gen::one_char_cuts(n), None, st);
+                // the same with a page script that removes / moves attached elements at suspension points
+                for _ in 0..3 {
+                    let ss = rng.next_u64();
+                    check_xml(&input, &gen::one_char_cuts(n), Some(ss), st);
+                    st.count("scripted_runs");
+                }
                 continue;
             }
             let (mut input, opts) = random_html_case(&mut rng, &contexts, &[], false);
@@ -127,19 +137,25 @@ pub fn run(args: &Args) -> (Meta, Stats) {
                 continue;
             }
             // a collection after every character, plus one random schedule
-            check_html(&input, &gen::one_char_cuts(n), &opts, st);
+            check_html(&input, &gen::one_char_cuts(n), &opts, None, st);
             if rng.chance(1, 3) {
                 let cuts = gen::random_cuts(&mut rng, n);
-                check_html(&input, &cuts, &opts, st);
+                check_html(&input, &cuts, &opts, None, st);
+            }
+            // the same with a page script that removes / moves attached elements at suspension points
+            for _ in 0..2 {
+                let ss = rng.next_u64();
+                check_html(&input, &gen::one_char_cuts(n), &opts, Some(ss), st);
+                st.count("scripted_runs");
             }
             st.count(if opts.context.is_some() { "html_fragment_inputs" } else { "html_document_inputs" });
         }
     });
     let mut m = super::meta(
         args,
-        "documents, fragments (~60 contexts) and XML inputs from the grammar/scenario/soup generators are parsed in 1-character chunks (and random schedules, with script pauses); at every feed() return the harness calls trace_handles and the GC-simulating sink poisons every node not reachable from the traced handles over parent/child/template-contents edges; any later sink call that receives a poisoned handle is a violation, and the final tree must equal the tree of a run without collection. Non-trivial = the run actually collected at least one node; distinct by hash of input+schedule+options.",
+        "documents, fragments (~60 contexts) and XML inputs from the grammar/scenario/soup generators are parsed in 1-character chunks (and random schedules, with script pauses), both without DOM mutation and with a simulated page script that removes or moves attached elements at suspension points (deterministic in a seed; the reference run performs the same mutations without collecting); at every feed() return the harness calls trace_handles and the GC-simulating sink poisons every node not reachable from the traced handles over parent/child/template-contents edges; any later sink call that receives a poisoned handle is a violation, and the final tree must equal the tree of a run without collection. Non-trivial = the run actually collected at least one node; distinct by hash of input+schedule+options.",
         &["reachability uses DOM edges parent, children, template contents <-> host, as the property states ('everything connected to them in the DOM')"],
     );
-    m.require = vec![("runs_that_collected_something".into(), 500), ("collections".into(), 100000), ("xml_runs".into(), 200), ("html_fragment_inputs".into(), 200)];
+    m.require = vec![("runs_that_collected_something".into(), 500), ("collections".into(), 100000), ("xml_runs".into(), 200), ("html_fragment_inputs".into(), 200), ("scripted_runs".into(), 2000), ("script_dom_mutations".into(), 5000)];
     (m, st)
 }
